@@ -30,6 +30,10 @@ fn gen_params(t: &mut Tape) -> Vec<Param> {
         let vt = if i > 0 && t.chance(1, 2) { out[i - 1].vt } else { *t.pick(&MATCHABLE) };
         out.push(Param { vt, pk: PK::Plain, name: format!("p{i}") });
     }
+    let names = crate::prog::param_names(t, out.len());
+    for (p, n) in out.iter_mut().zip(names) {
+        p.name = n;
+    }
     out
 }
 
